@@ -711,9 +711,16 @@ class TokenEncoder:
         return has to pass the same checks a token has to pass when no handler is installed. When no handler was
         invoked this repeats checks that already passed.
 
+        The dry-run of the encoding only looks at the start of the token; the loop below applies every encoding rule to the
+        WHOLE token, so that a stropping prefix or suffix outside the identifier alphabet cannot get through.
+
         :raises RuntimeError: if the token matches a reserved pattern, is a reserved identifier, or still needs encoding.
         """
         self._do_for_type_and_all(self._strop_by_pattern, stropped, token_type_lower, True)
         self._do_for_type_and_all(self._strop_by_keyword, stropped, token_type_lower, True)
         self._do_for_type_and_all(self._encode, stropped, token_type_lower, True)
+        for type_key in ("all", token_type_lower):
+            for token_pattern in self._token_encoding_rules_by_identifier_type.get(type_key, []):
+                if token_pattern.search(stropped):
+                    raise RuntimeError(f'token "{stropped}" contains text the encoding rule "{token_pattern.pattern}" rejects')
         return stropped
